@@ -135,7 +135,7 @@ theorem checked_of_checkWith {G : Grammar} {T : Tables} {K : Known}
     (h : checkWith G T K = true) : Checked G T K := by
   unfold checkWith at h
   simp only [Bool.and_eq_true, List.all_eq_true, List.isEmpty_iff] at h
-  obtain ⟨⟨h0, ha⟩, hg⟩ := h
+  obtain ⟨⟨⟨⟨h0, ha⟩, hg⟩, _⟩, _⟩ := h
   refine ⟨h0, ?_, ?_, ?_, ?_⟩
   · intro s a s' hm
     have := ha _ hm
